@@ -356,6 +356,11 @@ def model_check(ck, tier):
     ck.add_tlc(res)
     common.require(res.ok, 'SshAudit: TLC reports %s on the specification:\n%s' % (res.violated, '\n'.join(res.trace[-50:])))
     ck.log('SshAudit model: %d distinct states, MaxFaults=%d: safety invariants and Terminates hold' % (res.distinct, faults))
+    # vacuity guards: the behaviours added for SSH-1 peers and client audits are reachable in the model that was just checked
+    for inv in ('NeverFallsBack', 'NeverClientReport', 'NeverSsh1Report', 'NeverClientGivesUp'):
+        cfg = audit.mc_cfg('FaultFamily', 0, cap=4, conc=2, ticks=2).replace('INVARIANT ExitDocumented\n', 'INVARIANT %s\nINVARIANT ExitDocumented\n' % inv)
+        r = audit_tlc(cfg)
+        common.require(r.violated == inv, 'vacuity guard: %s should be violated (the behaviour it denies must be reachable), TLC says %r' % (inv, r.violated))
     return res
 
 
